@@ -6,6 +6,7 @@ import FractopoModel.Props.C01
 import FractopoModel.Props.C05
 import FractopoModel.Props.C07
 import FractopoModel.Props.C08
+import FractopoModel.Props.C12
 import FractopoModel.Props.C14
 import FractopoModel.Props.C15
 import FractopoModel.Props.C20
